@@ -116,11 +116,12 @@ pub struct Ctx {
     pub trace: bool,
     pub replaying: bool,
     ticks: u64,
+    last_tick: Instant,
     sample_slots: usize,
 }
 impl Ctx {
     pub fn new(tier: Tier, seed: u64) -> Ctx {
-        Ctx { tier, seed, s: Summary::default(), trace: false, replaying: false, ticks: 0, sample_slots: 3 }
+        Ctx { tier, seed, s: Summary::default(), trace: false, replaying: false, ticks: 0, last_tick: Instant::now(), sample_slots: 3 }
     }
     /// called before a case is executed; in trace mode prints the case so that the supervisor
     /// knows which one killed the process
@@ -134,7 +135,8 @@ impl Ctx {
             let _ = l.flush();
         }
         self.ticks += 1;
-        if self.ticks & 0x3ffff == 0 {
+        if self.ticks & 0x3f == 0 && self.last_tick.elapsed() > Duration::from_secs(2) {
+            self.last_tick = Instant::now();
             let out = std::io::stdout();
             let mut l = out.lock();
             let _ = writeln!(l, "T");
@@ -469,13 +471,30 @@ fn replay_fresh(exe: &std::path::Path, path: &str) -> Option<bool> {
     let mut c = Command::new(exe);
     c.arg("replay").arg(path);
     scrub_env(&mut c);
-    let out = c.stdin(Stdio::null()).stderr(Stdio::null()).output().ok()?;
-    match out.status.code() {
-        Some(0) => Some(false),
-        Some(1) => Some(true),
-        Some(_) => None,
-        // killed by a signal: for crash-type violations that *is* the failure
-        None => Some(true),
+    let mut ch = c.stdin(Stdio::null()).stdout(Stdio::null()).stderr(Stdio::null()).spawn().ok()?;
+    let t0 = Instant::now();
+    loop {
+        match ch.try_wait() {
+            Ok(Some(st)) => {
+                return match st.code() {
+                    Some(0) => Some(false),
+                    Some(1) => Some(true),
+                    Some(_) => None,
+                    // killed by a signal: for crash-type violations that *is* the failure
+                    None => Some(true),
+                };
+            }
+            Ok(None) => {
+                if t0.elapsed() > Duration::from_secs(90) {
+                    let _ = ch.kill();
+                    let _ = ch.wait();
+                    // no answer in 90 s: a hang reproduces as a hang
+                    return Some(true);
+                }
+                std::thread::sleep(Duration::from_millis(20));
+            }
+            Err(_) => return None,
+        }
     }
 }
 
@@ -515,6 +534,14 @@ pub fn supervisor_main(check: &dyn Check, tier: Tier, seed: u64) -> i32 {
     let t0 = Instant::now();
     let exe = std::env::current_exe().expect("current_exe");
     let id = check.id();
+    // replay files of earlier runs of this check are stale
+    if let Ok(rd) = std::fs::read_dir(format!("{}/replays", VERIF)) {
+        for e in rd.flatten() {
+            if e.file_name().to_string_lossy().starts_with(&format!("{}-", id)) {
+                let _ = std::fs::remove_file(e.path());
+            }
+        }
+    }
     if let Err(e) = check.prepare(tier) {
         eprintln!("machinery failure in prepare: {}", e);
         return 2;
